@@ -956,13 +956,17 @@ namespace riddle
             tk = next();
 
             size_t c_pos = pos;
+            bool ids_only = true; // whether the parenthesis starts with a (qualified) identifier..
             do
             {
                 if (!match(ID_ID))
-                    error("expected identifier..");
+                {
+                    ids_only = false;
+                    break;
+                }
             } while (match(DOT_ID));
 
-            if (match(RPAREN_ID)) // a cast..
+            if (ids_only && match(RPAREN_ID)) // a cast..
             {
                 backtrack(c_pos);
                 std::vector<id_token> ids;
